@@ -10,27 +10,27 @@ V = os.path.dirname(os.path.dirname(os.path.abspath(__file__)))
 META = {
     "C01": dict(cat="model_checking", eng="E1-sched", ref="3 (scheduler group), 1.1",
                 tech="stateless deviation-bounded exploration of the real scheduler + per-doer trace automaton",
-                text="Every execution of the closed system (real Doist/DoDoer/Doer code + scripted doers) with up to 2 deviations from default answers over all small doer forests is run (thorough: forests of depth <= 3, and 3 deviations on forests of <= 2 leaves); the alphabet includes raise / KeyboardInterrupt / failing and completing enter / extend / remove of self, adjacent and far siblings and extend/remove reaching into a sibling DoDoer; a trace automaton checks enter recur* (clean|cease|abort) exit per doer. Bounded-exhaustive: a counterexample within the bound cannot be missed.",
+                text="Every execution of the closed system (real Doist/DoDoer/Doer code + scripted doers) with up to 2 deviations from default answers over all small doer forests is run (thorough: forests of depth <= 3, and 3 deviations on forests of <= 2 leaves); the alphabet includes raise / KeyboardInterrupt / failing and completing enter / extend / remove of self, adjacent and far siblings and extend/remove reaching into a sibling DoDoer, and the same doer objects having been run to completion before by another Doist on another tyme base; a trace automaton checks enter recur* (clean|cease|abort) exit per doer. Bounded-exhaustive: a counterexample within the bound cannot be missed.",
                 note="Trusted: CPython generator semantics, the harness leaf templates, the trace monitor. Bounds: forests <= 4 leaves (depth <= 2) / <= 3 leaves (depth 3), horizon 3 recurs; bound 3 only on forests of <= 2 leaves."),
     "C02": dict(cat="model_checking", eng="E1-sched", ref="3 (scheduler group)",
                 tech="stateless deviation-bounded exploration + exit-window order monitor",
-                text="Same closed system, alphabet focused on stops (raise, failing enter, limit, remove of adjacent / far siblings, of the scheduler's own doers list and of the parent, extend, extend/remove reaching into a sibling DoDoer from outside its pass, a doer that yields 2T and so is not due at the stop; runs through do() or driven by hand with enter / recur(deeds=) / exit(deeds=)): inside every scheduler's exit window the alive children must exit in reverse enter order, completely, before do() returns/raises.",
+                text="Same closed system, alphabet focused on stops (raise, failing enter, limit, remove of adjacent / far siblings (also named twice), of the scheduler's own doers list and of the parent, extend, extend/remove reaching into a sibling DoDoer from outside its pass, a doer that yields 2T and so is not due at the stop; runs through do() or driven by hand with enter / recur(deeds=) / exit(deeds=)): inside every scheduler's exit window the alive children must exit in reverse enter order, completely, before do() returns/raises.",
                 note="Trusted: monitor; refcount-timed finalisation is observed relative to do() returning (deterministic in CPython). Ordering after extend() from a running doer is a recorded KNOWN-FINDING."),
     "C03": dict(cat="model_checking", eng="E1-sched", ref="3 (scheduler group)",
                 tech="stateless deviation-bounded exploration + statement-derived reference cycle model in lock step",
                 text="All small forests x all yield/return scripts within the deviation bound; the per-doer (cycle, tyme) sequence and within-cycle order must equal a 40-line reference model transcribed from the statement (float-exact).",
-                note="Trusted: reference model. Tocks from {0,None,T/2,T,1.5T,2T,2.5T,0.1}; T in {1,0.25,0.1}; start in {0,2.5}; a sweep job enumerates a 5x5x8x2 configuration grid (start tymes incl. a negative one)."),
+                note="Trusted: reference model. Tocks from {0,None,T/2,T,1.5T,2T,2.5T,0.1}; T in {1,0.25,0.1}; start in {0,2.5,-1.5}; doers fresh or run before by another Doist; a sweep job enumerates a 5x7x8x2 configuration grid (start tymes incl. negative ones, so that a due tyme of exactly 0.0 falls on a cycle or between two)."),
     "C04": dict(cat="model_checking", eng="E1-sched differential", ref="3 (scheduler group)",
                 tech="stateless exploration of flat runs, each replayed under every regrouping into tock-0 DoDoers (differential)",
-                text="Every flat execution within the bound is re-run under all 2/13/69/335 regroupings of its 1..4 leaves with the recorded decisions; traces, done flags, completion cycle must be identical; leaves may also complete inside enter (generator functions: with True, False or no value). No reference model needed.",
+                text="Every flat execution within the bound is re-run under all 2/13/69/335 regroupings of its 1..4 leaves with the recorded decisions; traces, done flags, completion cycle must be identical; leaves may also complete inside enter (generator functions: with True, False or no value); start tymes incl. a negative one; doers fresh or run before by another Doist on another tyme base. No reference model needed.",
                 note="Runs end by completion or limit as in the property's quantifier."),
     "C05": dict(cat="model_checking", eng="E1-sched", ref="3 (scheduler group)",
                 tech="stateless deviation-bounded exploration + statement-derived termination/done oracle",
-                text="Limits incl. non-multiples of tock, start tymes, always-DoDoers, limit and start tyme given to the constructor or to do() over stale constructor values, a doer given to an idle always-DoDoer from outside; return cycle, doist.done, final tyme and every doer.done are checked against rules computed from the statement and the observed completions.",
+                text="Limits incl. non-multiples of tock, start tymes, always-DoDoers, limit and start tyme given to the constructor or to do() over stale constructor values ('no limit' said as limit=0; limits of either sign), doers added at runtime, a doer given to an idle always-DoDoer from outside, doers run before by another Doist; return cycle, doist.done, final tyme and every doer.done are checked against rules computed from the statement and the observed completions.",
                 note="An idle always-DoDoer's done flag after a forced close is excluded (pinned by hio's own test_dodoer_always), also when it was given a doer from outside after its last recur (runtime extension is C06's subject)."),
     "C06": dict(cat="model_checking", eng="E1-sched", ref="3 (scheduler group)",
                 tech="stateless deviation-bounded exploration of extend/remove histories + list model of membership",
-                text="extend/remove of self, adjacent and far siblings, the scheduler's own doers list, completed, absent and duplicate doers, new doers that complete inside enter, from inside running doers at every step, owners Doist and DoDoer(always); timing clauses and scheduler.doers vs list model checked after every call.",
+                text="extend/remove of self, adjacent and far siblings, the scheduler's own doers list, completed, absent and duplicate doers, new doers that complete inside enter, a completed doer taken out and added again (second life), extend reaching into a sibling always-DoDoer, from inside running doers at every step, owners Doist and DoDoer(always); timing clauses and scheduler.doers vs list model checked after every call.",
                 note="extend from inside enter is outside the quantifier. Re-adding a self-removed still-running doer is not in the alphabet."),
     "C08": dict(cat="model_checking", eng="E3 op-sequence enumeration", ref="3 (C08)",
                 tech="exhaustive enumeration of all timer operation sequences up to a depth against a start/stop model",
@@ -38,7 +38,7 @@ META = {
                 note="Fake clock installed as hio.help.timing.time; dyadic values keep MonoTimer arithmetic exact."),
     "C09": dict(cat="model_checking", eng="E1 over FakeNet", ref="3 (TCP group), 2 (FakeNet)",
                 tech="stateless deviation-bounded exploration of kernel answers (partial send/short read/would-block/TLS want) on real tcp Client/Server over an in-memory kernel model",
-                text="Real tcp Client/ClientTls (built with application-supplied empty rxbs/txbs buffers, which the harness fills and observes) and Server/ServerTls exchange scripted payloads over FakeNet (TLS may want the opposite direction at any send/recv; wire logs receive-only, transmit-only or both); every execution with up to 3 (quick) / 5 (thorough) non-default kernel answers is run; after every service round received bytes must be a prefix of transmitted bytes in both directions, wire logs must equal the bytes the kernel accepted/delivered, and healthy servicing must deliver everything.",
+                text="Real tcp Client/ClientTls (built with application-supplied empty rxbs/txbs buffers, which the harness fills and observes) and Server/ServerTls exchange scripted payloads over FakeNet (TLS may want the opposite direction at any send/recv; wire logs receive-only, transmit-only or both; server-side connection timers that activity refreshes or not; a reconnectable client whose server is not listening at first, so that it re-opens its socket with bytes waiting; either side half-closing its receive direction and transmitting on); every execution with up to 3 (quick) / 5 (thorough) non-default kernel answers is run; after every service round received bytes must be a prefix of transmitted bytes in both directions, wire logs must equal the bytes the kernel accepted/delivered, and healthy servicing must deliver everything.",
                 note="Trusted: FakeNet (its deterministic behaviour is compared call by call with real loopback sockets by vf/env/fakenet_conf.py, reported in evidence); TLS is a pass-through raising OpenSSL's want-read/want-write."),
     "C10": dict(cat="fault_enumeration", eng="E1 over FakeNet", ref="3 (TCP group)",
                 tech="exhaustive single (quick) / up to triple (thorough) fault placement: every connection-level errno, TLS EOF, handshake abort at every send/recv/handshake call, peer close/RST/half-close at every step boundary",
@@ -126,7 +126,7 @@ META = {
                 note="Runs as root on tmpfs, so the permission-driven fallback to the alternate head is watched but not exercised. Left-over mkdtemp directories of temp Filers are a recorded KNOWN-FINDING (2 keys). Intermediate directories of persistent Filers may stay (shared)."),
     "C30": dict(cat="model_checking", eng="E1-sched + virtual asyncio loop, differential", ref="3 (C30), 2 (virtual loop)",
                 tech="stateless exploration incl. all asyncio ready-queue orders on a hand-stepped event loop; do() vs ado() differential",
-                text="Each program is run with do() and with ado() on a virtual BaseEventLoop with 0..2 spinning competitor tasks; the explorer also picks which ready handle runs next; limit and start tyme are given to the constructor or to do()/ado(), also followed by a second run without arguments; traces, tymes, done flags must be identical.",
+                text="Each program is run with do() and with ado() on a virtual BaseEventLoop with 0..2 spinning competitor tasks; the explorer also picks which ready handle runs next; limit and start tyme are given to the constructor or to do()/ado() (limits of either sign, 'no limit' as 0), also followed by a second run without arguments, doers fresh or run before by another Doist; traces, tymes, done flags must be identical.",
                 note="Trusted: the virtual loop (BaseEventLoop subclass) is asyncio's own Task/Handle machinery with time() and the selector removed."),
 }
 
